@@ -152,6 +152,10 @@ def check(ctx):
         ctx.require(R3, dom and A.render_symbolic(dom[0]) == "${identifier_tls_alpn}", path, "hook %s: --domain is identifier_tls_alpn" % h["name"], ["default_hooks", "tacd-domain", h["name"]])
         ctx.require(R3, ext and A.render_symbolic(ext[0]) == "${proof}", path, "hook %s: --acme-ext is the proof" % h["name"], ["default_hooks", "tacd-ext", h["name"]])
 
+    # the responder those hooks start must be reachable by a conforming CA: TLS 1.2 or higher (shared with C16.R2)
+    from .c16 import tls_version_rule
+    tls_version_rule(ctx, R3)
+
     R4 = ctx.rule("R4", "environment variables used by a group = those documented for it, with the documented defaults")
     for g in groups:
         used = {}
